@@ -9,7 +9,8 @@ FP(v) == [f |-> "p", ty |-> "s", v |-> v]
 FNil  == [f |-> "nil"]
 EmbedFragsOf(nh) ==
      { FM(("s" :> FC(j))) : j \in 2..nh } \cup { FM(("l" :> FL(<<FC(j)>>))) : j \in 2..nh } \cup { FC(j) : j \in 2..nh }
-Embeds(fr) == IF fr.f = "cfg" THEN fr.h
+     \cup { [f |-> "cs", h |-> j, key |-> "s", sub |-> "zz", v |-> "9"] : j \in 2..nh }
+Embeds(fr) == IF fr.f \in {"cfg", "cs"} THEN fr.h
               ELSE IF fr.f = "m" /\ DOMAIN fr.m # {} THEN
                    (LET key == CHOOSE x \in DOMAIN fr.m : TRUE IN
                      IF fr.m[key].f = "cfg" THEN fr.m[key].h
@@ -44,6 +45,11 @@ NamesCore == {Nm(<<Seg("a")>>), Nm(<<Seg("b")>>), Nm(<<Seg("a"), Seg("b")>>), Nm
 IdxsCore  == {-1, 0, 2}
 ValsCore  == {[ty |-> "s", v |-> "2"]}
 AddrsCore == AddrsOf(NamesCore, {-1, 0, 1})
+
+\* list churn: writes past the end, removals, writes into the gap - on the root list and on a named list
+NamesChurn == {Nm(<<>>), Nm(<<Seg("l")>>)}
+IdxsChurn  == {0, 1, 2}
+AddrsChurn == AddrsOf(NamesChurn, {-1, 0, 1, 2}) 
 
 \* with merges, embedding, SetChild, Parent
 NamesMerge == {Nm(<<Seg("a")>>), Nm(<<Seg("l")>>), Nm(<<Seg("a"), Seg("x")>>), Nm(<<Seg("s")>>), Nm(<<Seg("l"), SegI("0", 0)>>)}
